@@ -652,6 +652,57 @@ func TestWaiting(t *testing.T) {
 	})
 }
 
+// TestWaitingFocused: a denser corner of the same space - 2..3 relation-free
+// states (every mutation succeeds), multi-state When/WhenNot with shared
+// contexts, frequent context cancelation - where binding/index bookkeeping
+// errors need a specific multi-step sequence to show.
+func TestWaitingFocused(t *testing.T) {
+	st := ev.G()
+	st.SetRapid(1500, 40000, 2)
+	rapid.Check(t, func(t *rapid.T) {
+		n := rapid.IntRange(2, 3).Draw(t, "n")
+		sc := gen.Schema{}
+		for i := 0; i < n; i++ {
+			sc.States = append(sc.States, gen.StateDef{Name: fmt.Sprintf("S%d", i), Multi: i == 2 && rapid.Bool().Draw(t, "multi")})
+		}
+		names := sc.UserNames()
+		c := Case{Schema: sc}
+		na := rapid.IntRange(4, 30).Draw(t, "actions")
+		for i := 0; i < na; i++ {
+			lbl := fmt.Sprintf("a%d", i)
+			k := rapid.IntRange(0, 19).Draw(t, lbl+"kind")
+			switch {
+			case k < 8:
+				c.Actions = append(c.Actions, Action{Kind: "mutate", Step: gen.Step{
+					Op:     rapid.SampledFrom([]string{"add", "remove", "toggle"}).Draw(t, lbl+"op"),
+					States: gen.Subset(t, names, lbl+"s", false),
+				}})
+			case k < 15:
+				sp := &Sub{Type: rapid.SampledFrom([]string{"when", "when", "whennot", "whentime"}).Draw(t, lbl+"type"), Ctx: -1}
+				sp.States = gen.Subset(t, names, lbl+"s", false)
+				if sp.Type == "whentime" {
+					for range sp.States {
+						sp.Delta = append(sp.Delta, rapid.IntRange(0, 3).Draw(t, lbl+"d"))
+					}
+				}
+				if rapid.Bool().Draw(t, lbl+"withCtx") {
+					sp.Ctx = rapid.IntRange(0, 1).Draw(t, lbl+"ctx")
+				}
+				c.Actions = append(c.Actions, Action{Kind: "sub", Sub: sp})
+			case k < 18:
+				c.Actions = append(c.Actions, Action{Kind: "cancel", Ctx: rapid.IntRange(0, 1).Draw(t, lbl+"c")})
+			default:
+				c.Actions = append(c.Actions, Action{Kind: "statectx", State: rapid.SampledFrom(names).Draw(t, lbl+"s")})
+			}
+		}
+		st.Journal(map[string]any{"kind": "c06", "case": c})
+		if err := runCase(c, st); err != nil {
+			ev.G().PinLast()
+			t.Fatalf("C06 violated: %v", err)
+		}
+	})
+}
+
 func TestKnownAndRegressions(t *testing.T) {
 	st := ev.G()
 	sc := gen.Schema{States: []gen.StateDef{{Name: "S0"}, {Name: "S1", Multi: true}}}
